@@ -198,7 +198,7 @@ func (c *Ctx) load(st *State, fr *Frame, a *Addr) Val {
 		h := c.heapCur(st, a.HKey, arrSort(mustSort(a.Elem)))
 		v := sel(h, a.Ref, mustSort(a.Elem))
 		v.GoT = a.Elem
-		if v.Sort == SInt && (isStructPtr(a.Elem) || isInterface(a.Elem)) && !isInterface(a.Elem) {
+		if v.Sort == SInt && isRefType(a.Elem) {
 			c.assumeAlive(st, v)
 		}
 		return v
